@@ -86,7 +86,7 @@ class FortranDifferential(BoundedCheck):
     props = ('C07', 'C04')
     bound_quick = ('24 seeded programs of the common subset (1-3 equations, literals exactly representable in single precision) + a 40-variable program with '
                    'continuation lines; gfortran + ctypes ENGINE with f2py calling convention; evaluate at every feasible t incl. negative spelling; '
-                   'solve_t over min_iter/max_iter/tol/offset/failures/errors; solve; plus one program per recorded literal finding')
+                   'solve_t over min_iter/max_iter/tol (incl. 0: a fixed point reached exactly has moved by 0, which is not less than 0)/offset/failures/errors; solve; plus one program per recorded literal finding')
     bound_thorough = '400 programs'
     required_covers = ('evaluate', 'solve_t', 'solve', 'negative-t', 'offset', 'numbering', 'continuation-lines')
 
@@ -190,7 +190,7 @@ class FortranDifferential(BoundedCheck):
             res.cover('negative-t')
             compare('evaluate', lambda m, t=t: m._evaluate(t - n), t - n)
         t0 = feas[len(feas) // 2]
-        for mi, ma, tol, off, fl, er in itertools.product((0, 2), (0, 1, 6, 60), (1e-10, 0.1), (0, -1, 1, -n - 1, n + 1), ('raise', 'ignore'), ('raise', 'skip', 'replace')):
+        for mi, ma, tol, off, fl, er in itertools.product((0, 2), (0, 1, 6, 60), (1e-10, 0.1, 0.0), (0, -1, 1, -n - 1, n + 1), ('raise', 'ignore'), ('raise', 'skip', 'replace')):
             if mi > ma and rnd.random() < 0.7:
                 continue
             if rnd.random() < (0.6 if case['kind'] == 'safe' else 0.0):
